@@ -1,4 +1,4 @@
-"""Composition job (Endpoint.tla): a real endpoint on loopback visited by one client at a time; the hook
+"""Composition job (Endpoint.tla): a real endpoint on loopback visited by one client at a time and then by waves of concurrent clients (EndpointN.tla); the hook
 events of the accept path, rule evaluation, demultiplexing, TLS accept and the session / outbound-TCP
 gauges are validated as one trace against Endpoint.tla. Used by C04 (rules applied to the canonical
 address and before the handshake), C12 (the random handed to the rules is the peeked one or absent) and
@@ -12,25 +12,37 @@ def run_endpoint(ctx):
                  require_actions=("Accept", "Peek", "RulesEval", "NoRules", "Demux", "TlsAcceptStart", "SessionOpen", "ServeOther",
                                   "TcpOpen", "SessionClose", "Drop"))
     ctx.spec_must_hold(mc)
+    mcn = ctx.tlc("MCEndpointN", "MCEndpointN.cfg", workers=4, timeout=600,
+                  require_actions=("Accept", "Peek", "RulesEval", "NoRules", "Demux", "TlsAcceptStart", "SessionOpen", "ServeOther",
+                                   "TcpOpen", "TcpClose", "SessionClose", "Drop"))
+    ctx.spec_must_hold(mcn)
+    if ctx.thorough:
+        mcn3 = ctx.tlc("MCEndpointN3", "MCEndpointN3.cfg", workers=8, timeout=1800, coverage=False)
+        ctx.spec_must_hold(mcn3)
     trace = os.path.join(ctx.work, "endpoint.ndjson")
-    r = ctx.harness("ep", ["--rounds", "4" if ctx.thorough else "2", "--trace", trace], env={"VERIF_ROOT": ROOT}, timeout=1200)
+    trace_n = os.path.join(ctx.work, "endpoint_n.ndjson")
+    r = ctx.harness("ep", ["--rounds", "4" if ctx.thorough else "2", "--trace", trace, "--trace-n", trace_n,
+                           "--waves", "16" if ctx.thorough else "5", "--width", "6" if ctx.thorough else "4"], env={"VERIF_ROOT": ROOT}, timeout=1200)
     if r["counters"].get("events", 0) < 100:
         raise ToolError("endpoint job recorded too few events")
-    s = ctx.tlc("EndpointTrace", "EndpointTrace.cfg", name="EndpointTrace", trace_mode=True, env={"TRACE": trace}, timeout=600, coverage=False)
-    um = None
-    with open(s["out"], errors="replace") as f:
-        for line in f:
-            m = re.match(r'^<<"UNMATCHED", (\d+), "(.*)">>$', line.rstrip("\n"))
-            if m:
-                um = (int(m.group(1)), m.group(2).replace('\\"', '"'))
-    if um is not None or s["error"]:
-        lines = open(trace).read().splitlines()
-        k = (um[0] - 1) if um else max(0, (s["depth"] or 2) - 2)
-        start = max([i for i in range(0, k + 1) if '"ev":"Accepted"' in lines[i] or '"ev":"Config"' in lines[i]] or [0])
-        ev = json.loads(lines[k]).get("ev", "?") if k < len(lines) else "?"
-        prev = json.loads(lines[k - 1]).get("ev", "?") if k > 0 else "-"
-        what = "no behaviour of Endpoint.tla explains this event" if um else "an invariant of Endpoint.tla is false on the recorded execution: %s" % s["error"]
-        ctx.violations.append({"sig": "endpoint:reject:%s:after:%s" % (ev, prev) if um else "endpoint:invariant",
-                               "what": "%s: %s" % (what, lines[k] if k < len(lines) else ""),
-                               "detail": {"kind": "trace", "module": "EndpointTrace", "connection": lines[start:k + 3]}, "job": "EndpointTrace"})
-    return {"endpoint_connections": r["evaluations"], "endpoint_events_validated": r["counters"].get("events", 0), "endpoint_model_states": mc["distinct"]}
+    for module, tr, endmark in (("EndpointTrace", trace, '"ev":"Accepted"'), ("EndpointNTrace", trace_n, '"ev":"WaveEnd"')):
+        s = ctx.tlc(module, module + ".cfg", name=module, trace_mode=True, env={"TRACE": tr}, timeout=900, coverage=False)
+        um = None
+        with open(s["out"], errors="replace") as f:
+            for line in f:
+                m = re.match(r'^<<"UNMATCHED", (\d+), "(.*)">>$', line.rstrip("\n"))
+                if m:
+                    um = (int(m.group(1)), m.group(2).replace('\\"', '"'))
+        if um is not None or s["error"]:
+            lines = open(tr).read().splitlines()
+            k = (um[0] - 1) if um else max(0, (s["depth"] or 2) - 2)
+            start = max([i for i in range(0, k + 1) if endmark in lines[i] or '"ev":"Config"' in lines[i]] or [0])
+            ev = json.loads(lines[k]).get("ev", "?") if k < len(lines) else "?"
+            prev = json.loads(lines[k - 1]).get("ev", "?") if k > 0 else "-"
+            conc = ":concurrent" if module == "EndpointNTrace" else ""
+            what = ("no behaviour of %s explains this event" % module[:-5]) if um else "an invariant of %s.tla is false on the recorded execution: %s" % (module[:-5], s["error"])
+            ctx.violations.append({"sig": ("endpoint%s:reject:%s:after:%s" % (conc, ev, prev)) if um else "endpoint%s:invariant" % conc,
+                                   "what": "%s: %s" % (what, lines[k] if k < len(lines) else ""),
+                                   "detail": {"kind": "trace", "module": module, "connection": lines[start:k + 3][-40:]}, "job": module})
+    return {"endpoint_connections": r["evaluations"], "endpoint_events_validated": r["counters"].get("events", 0), "endpoint_model_states": mc["distinct"],
+            "endpoint_concurrent_events_validated": r["counters"].get("events_concurrent", 0), "endpoint_n_model_states": mcn["distinct"]}
